@@ -390,6 +390,18 @@ func (p *Core) execWriteAck(op sim.Op) {
 			}
 			p.w.Stats.NonTrivial(fmt.Sprintf("wack:v2=%v:%s:%s:rep%d", ps.V2, state, res, min64(int64(i), 2)))
 		}(i)
+		if ps.V2 && op.S == "bad" {
+			// an application whose begin-block logic offers a malformed acknowledgement (two app
+			// acks for one payload) and swallows the error: nothing is rolled back around the call
+			bad := channeltypesv2.Acknowledgement{AppAcknowledgements: [][]byte{[]byte("a"), []byte("b")}}
+			err = dst.App.IBCKeeper.ChannelKeeperV2.WriteAcknowledgement(ctx, ps.P2.DestinationClient, ps.P2.Sequence, bad)
+			p.dirty = true
+			p.w.Stats.Probe("async_ack_malformed_write_attempt")
+			if err == nil {
+				p.w.Violate("C11", "malformed-ack-written", "", fmt.Sprintf("%s: an acknowledgement with 2 app acks for 1 payload was written", ps.Pkt))
+			}
+			continue
+		}
 		if ps.V2 {
 			ack := channeltypesv2.NewAcknowledgement([]byte(fmt.Sprintf("async-ack-%d-%d", ps.Tag, i)))
 			if op.S == "fail" {
